@@ -252,17 +252,46 @@ func c19scenarioChild(raw json.RawMessage, scratch string) {
 		}
 		wg.Wait()
 		fmt.Fprintf(f, "@CONC concurrent GetSafeOptions calls rendered and scanned: %d\n", calls)
+		// every DbSyncer prints its node descriptor when it starts and whenever it restarts, and the syncers of a
+		// multi-source / cluster run do so at the same time: 8 of them, each with its own descriptor, through the logger
+		var descLeaked, descs int64
+		for g := 0; g < 8; g++ {
+			wg.Add(1)
+			go func(g int) {
+				defer wg.Done()
+				node := &slot.SyncNode{Id: g, Source: fmt.Sprintf("10.19.0.%d:6379", g), SourcePassword: a.SrcPw, Target: []string{"10.19.1.1:6379"}, TargetPassword: a.TgtPw,
+					SlotLeftBoundary: g * 2048, SlotRightBoundary: g*2048 + 2047, Slaves: []string{fmt.Sprintf("10.19.2.%d:6379", g)}}
+				for k := 0; k < 2500 && atomic.LoadInt64(&descLeaked) == 0; k++ {
+					var line string
+					switch k % 3 {
+					case 0:
+						line = fmt.Sprintf("Starting sync for node: %v", node)
+					case 1:
+						line = fmt.Sprintf("%+v", *node)
+					default:
+						line = fmt.Sprintf("%s", node)
+					}
+					atomic.AddInt64(&descs, 1)
+					if (strings.Contains(line, a.SrcPw) || strings.Contains(line, a.TgtPw)) && atomic.CompareAndSwapInt64(&descLeaked, 0, 1) {
+						fmt.Fprintf(f, "@DOC SyncNode-descriptor(8-concurrent-syncers) fmt=%s\n", line)
+					}
+				}
+			}(g)
+		}
+		wg.Wait()
+		fmt.Fprintf(f, "@CONCDESC concurrent node descriptors rendered and scanned: %d\n", descs)
 	}
 	f.Sync()
 	fmt.Println("@DONE")
 }
 
+var concDescRe = regexp.MustCompile(`@CONCDESC [^\n]*: (\d+)`)
 var concCallsRe = regexp.MustCompile(`@CONC [^\n]*: (\d+)`)
 var logCallRe = regexp.MustCompile(`\[(?:INFO|WARN|ERROR|DEBUG|PANIC)\][^\n]{0,160}`)
 
 func c19(c *wk.Ctx) {
 	r := c.R
-	r.Rule = "every run path (sync start + full + incremental + source reconnect via CmdSync.Main, resume with checkpoint load, restart after a refused PSYNC until the retry budget ends the process, restore mode, rump, dump, shard supervisor with failing nodes and with a retry budget that runs out, DbSyncer.Sync() with source.type=cluster (topology re-discovery at every start and restart), checkpoint load incl. a wrong password, the status documents) x log levels {debug, info, warn, error} runs in a child whose log.StdLog is redirected into a file, with distinct sentinel passwords that the fake peers really require; every byte logged plus json/%v/%+v renderings of conf.GetSafeOptions(), metric.NewMetricRest() and GetDetailedInfo() is scanned for the sentinels; 8 concurrent callers of conf.GetSafeOptions() x 2500 calls are rendered and scanned as well. distinct = (scenario, level)"
+	r.Rule = "every run path (sync start + full + incremental + source reconnect via CmdSync.Main, resume with checkpoint load, restart after a refused PSYNC until the retry budget ends the process, restore mode, rump, dump, shard supervisor with failing nodes and with a retry budget that runs out, DbSyncer.Sync() with source.type=cluster (topology re-discovery at every start and restart), checkpoint load incl. a wrong password, the status documents) x log levels {debug, info, warn, error} runs in a child whose log.StdLog is redirected into a file, with distinct sentinel passwords that the fake peers really require; every byte logged plus json/%v/%+v renderings of conf.GetSafeOptions(), metric.NewMetricRest() and GetDetailedInfo() is scanned for the sentinels; 8 concurrent callers of conf.GetSafeOptions() x 2500 calls and 8 syncers printing their own node descriptors x 2500 are rendered and scanned as well. distinct = (scenario, level)"
 	srcPw := fmt.Sprintf("S3NT-src-%d", c.Seed)
 	tgtPw := fmt.Sprintf("S3NT-tgt-%d", c.Seed)
 	levels := []string{"debug", "info", "warn", "error"}
@@ -297,6 +326,10 @@ func c19(c *wk.Ctx) {
 			r.Count("status_documents_rendered", int64(bytes.Count(data, []byte("@DOC "))))
 			for _, d := range []string{"metric.NewMetricRest", "GetDetailedInfo", "GetSafeOptions", "GetExtraInfo"} {
 				r.Count("documents:"+d, int64(bytes.Count(data, []byte(d+" json="))+bytes.Count(data, []byte(d+"("))))
+			}
+			if m := concDescRe.FindSubmatch(data); m != nil {
+				n, _ := strconv.ParseInt(string(m[1]), 10, 64)
+				r.Count("concurrent_node_descriptors_scanned", n)
 			}
 			if m := concCallsRe.FindSubmatch(data); m != nil {
 				n, _ := strconv.ParseInt(string(m[1]), 10, 64)
@@ -347,6 +380,7 @@ func c19(c *wk.Ctx) {
 	r.Floor("scenario_runs", int64(len(jobs)))
 	r.Floor("bytes_scanned", 20000)
 	r.Floor("concurrent_configuration_documents_scanned", 40000)
+	r.Floor("concurrent_node_descriptors_scanned", 40000)
 	r.Floor("documents:metric.NewMetricRest", 8)
 	r.Floor("documents:GetDetailedInfo", 8)
 	r.Floor("documents:GetSafeOptions", 4)
